@@ -32,7 +32,32 @@ def rule_r1(ctx):
     rr = RuleResult("C15-R1", "parenthesisation is sufficient for the Python 3.8 grammar as well")
     rr.exhaustive = True
     rr.floor = 60
-    return _check_pairs(ctx, rr, "C15-R1", floor38=True)
+    rr = _check_pairs(ctx, rr, "C15-R1", floor38=True)
+    # a bare (unparenthesised) index tuple may contain a starred element only from 3.11 on: it may be
+    # printed bare only when it is known to contain a slice (then it cannot have been parenthesised
+    # in the source, and 3.8-3.10 sources cannot put a star there)
+    import re
+
+    from .c03 import _hole_fields
+
+    U = ctx.ustr
+    for pr in U.paths("Subscript"):
+        if pr.outcome != "ok":
+            continue
+        if not any(fp == ("slice", "elts") for fp, h in _hole_fields(pr)):
+            continue
+        rr.instances += 1
+        has_slice = any(re.match(r"isinstance:Subscript\.slice.*elts\[\*\d*\]:Slice$", k) and v is True for k, v in pr.assign.items())
+        what = f"Subscript|bare-index-tuple|{'slice' if has_slice else 'any'}"
+        if has_slice:
+            rr.ok(what)
+        else:
+            rr.fail(
+                "C15-R1|Subscript.slice|bare-index-tuple|may-contain-starred",
+                f"{U.gen_map['Subscript'].where()}: an index tuple is printed without parentheses although it is not known to contain a slice: `grid[(*pos, 1)]` becomes `grid[*pos,1]`, a syntax error before Python 3.11",
+                where=U.gen_map["Subscript"].where(), what=what,
+            )
+    return rr
 
 
 def rule_r2(ctx):
